@@ -294,6 +294,11 @@ def fam_slots(rng, cfgs=(CFG_A, CFG_B, CFG_C)):
             ops.append(add(1, 1, garbled(300)))      # dispute in cache + garbled: charged, nothing stored
             ops.append(sub(1))
             out.append(scen("slots-S%d-%d" % (cfg["S"], k), cfg, ops))
+    # replacing a held appointment whose dispute is in the cache (held without tracker: penalty already on chain) by smaller / garbled / bigger data
+    for k, repl in enumerate((garbled(10), garbled(5000), valid(1, 1), valid(1, 5))):
+        ops = [reg(1), add(1, 1, valid(1, 3)), sub(1), mine([D(1), P(1, 3)]), get(1, 1), sub(1),
+               add(1, 1, repl), sub(1), get(1, 1), add(1, 1, repl), sub(1), add(1, 1, garbled(10)), sub(1), add(1, 2, valid(2)), sub(1)]
+        out.append(scen("slots-replace-resolved-%d" % k, CFG_A, ops))
     return out
 
 
